@@ -13,7 +13,7 @@ compressor object, the object lives as long as the processor, and which worker t
   given item list, `workItems_eq_ticketStates` shows that this is what `workItems` of `Model/C02Worker.lean` does).
 * every function of `Model/BlockProc.lean` that reaches `poolSubmit` — `enqueueBlock`, `makeRoom`, `storeFrag`,
   `processCompletedFragment`, `handleDequeued`, `dequeueGo`, `dequeueBlock`, `getNewBlockGo`, `getNewBlock`,
-  `addSentinelBlock`, `appendGo`, `append`, `endFile`, `syncGo`, `sync`, `finish`, `packFile`, `packFiles`, `runProc`, `run` —
+  `addSentinelBlock`, `appendGo`, `append`, `endFile`, `syncGo`, `syncDrain`, `sync`, `finish`, `packFile`, `packFiles`, `runProc`, `run` —
   is repeated **verbatim** with `poolSubmit` replaced (suffix `K`); everything else (`poolDequeue`, `poolStatus`, the fragment
   table, the block writer, `P.codec.unc` for reading fragment blocks back) is the original.
 
@@ -179,7 +179,14 @@ def syncGoK (κ : Nat → Codec) (P : Params) : Nat → Proc → Except Err Proc
       | .error e => .error e
       | .ok s' => syncGoK κ P fuel s'
 
-def syncK (κ : Nat → Codec) (P : Params) (s : Proc) : Except Err Proc := syncGoK κ P (s.backlog + 1) s
+def syncDrainK (κ : Nat → Codec) (P : Params) (s : Proc) : Except Err Proc := syncGoK κ P (s.backlog + 1) s
+
+def syncK (κ : Nat → Codec) (P : Params) (s : Proc) : Except Err Proc :=
+  match syncDrainK κ P s with
+  | .error e => .error e
+  | .ok s1 =>
+    if (poolStatus P s1.pool).2 ≠ 0 then .error (.pool (poolStatus P s1.pool).2)
+    else .ok { s1 with pool := (poolStatus P s1.pool).1 }
 
 def finishK (κ : Nat → Codec) (P : Params) (s : Proc) : Except Err Proc :=
   match syncK κ P s with
